@@ -89,6 +89,8 @@ def member(flat, pos):
                 return f"index-range: coord {i} = {c!r} not in 0..{len(v[1]) - 1}"
         else:
             n = v[1]
+            if isinstance(c, np.ndarray) and c.ndim == 1:
+                c = list(c)
             if not isinstance(c, (list, tuple)):
                 return f"permutation-type: coord {i} is {type(c).__name__}"
             if len(c) != n:
